@@ -1205,6 +1205,11 @@ func (h *backendHandler) duplex(st *rpcState, obs *BackendObs, rw http.ResponseW
 		rw.WriteHeader(rr.status)
 		h.writeBody(st, obs, rw, body, rr)
 		obs.SentMsgs = rr.nmsgs
+		if st.plan.Backend.CloseBody == "writer-early" {
+			// the side that writes gives up on the request while the other goroutine may be in the middle of a Read
+			// (connect-go closes the request body when a bidi handler returns; net/http allows Close during Read)
+			_ = rd.body.(io.Closer).Close()
+		}
 		w.Block("hwriter.await-reader", func() bool { return readerDone })
 		readerTok.acquire()
 		h.decodeRequest(obs)
